@@ -217,7 +217,7 @@ def r26_cid_sanitiser(ctx):
             ok, how = _validated(ctx, f, expr, at)
             ctx.check(ok, R, node, f, 'candidate IDs entering %s are range-validated' % sink, how,
                       'unvalidated candidate ID stored (%s): %s' % (sink, how))
-    ctx.floor(R, 'candidate-id sinks', n, 9)
+    ctx.floor(R, 'candidate-id sinks', n, 7)
     # getCid returns only validated values
     g = cls.methods.get('getCid')
     need(g is not None, 'getCid missing')
@@ -303,7 +303,7 @@ def _guard_key_is_store_key(ctx, R, funcs):
                           '%s[%s] and `%s in %s`' % (tbl, unparse(x.slice), unparse(mine[0][2].left), tbl),
                           '%s is %s under the key `%s` but the membership test in this function uses `%s`: entries the test distinguishes '
                           'collapse into one (or a repeated entry goes unnoticed)' % (tbl, kind, unparse(x.slice), unparse(mine[0][2].left)))
-    ctx.floor(R, 'guarded table accesses', n, 2)
+    ctx.floor(R, 'guarded table accesses', n, 1)
 
 
 def _tables_complete(ctx, R, funcs):
